@@ -310,7 +310,7 @@ var routes = []route{
 			Body: []byte("<Delete><Object><Key>" + k + "</Key></Object></Delete>")}, "/" + otherBucket(fx.bucket)
 	}},
 	{"ListBuckets", "GET", "", false, func(t interface{ Fatalf(string, ...any) }, fx *fixture, host string) (*s3kit.Req, string) {
-		return &s3kit.Req{Method: "GET", Host: host, Path: "/"}, ""
+		return &s3kit.Req{Method: "GET", Host: host, Path: "/"}, "/b1"
 	}},
 }
 
